@@ -301,6 +301,12 @@ func (d *lmtpDelivery) BodyNonAtomic(ctx context.Context, sc module.StatusCollec
 
 	rcptIndx := 0
 	err = d.conn.LMTPData(ctx, header, r, func(rcpt string, err *smtp.SMTPError) {
+		// Statuses arrive in the order of RCPT TO commands, the address
+		// itself could be converted for the server (non-SMTPUTF8 one), but
+		// the status should be reported for the address passed to AddRcpt.
+		if rcptIndx < len(d.rcpts) {
+			rcpt = d.rcpts[rcptIndx]
+		}
 		if err == nil {
 			sc.SetStatus(rcpt, nil)
 		} else {
